@@ -603,6 +603,12 @@ class WrappedTable:
         left_fk_name = f"{self.tablename.lower()}{self.ormatic.foreign_key_postfix}"
         right_fk_name = f"{target_wrapped_table.tablename.lower()}{self.ormatic.foreign_key_postfix}"
 
+        # a collection of the own type needs two distinguishable foreign keys to the same table
+        references_own_table = left_fk_name == right_fk_name
+        if references_own_table:
+            left_fk_name = f"source_{left_fk_name}"
+            right_fk_name = f"target_{right_fk_name}"
+
         # create association table metadata
         association_table = AssociationTable(
             name=association_table_name,
@@ -622,7 +628,13 @@ class WrappedTable:
         rel_type = (
             f"Mapped[{module_and_class_name(List)}[{target_wrapped_table.tablename}]]"
         )
-        rel_constructor = f"relationship('{target_wrapped_table.tablename}', secondary='{association_table_name}', cascade='save-update, merge')"
+        join_conditions = ""
+        if references_own_table:
+            join_conditions = (
+                f"primaryjoin='{self.full_primary_key_name} == {association_table_name}.c.{left_fk_name}', "
+                f"secondaryjoin='{target_wrapped_table.full_primary_key_name} == {association_table_name}.c.{right_fk_name}', "
+            )
+        rel_constructor = f"relationship('{target_wrapped_table.tablename}', secondary='{association_table_name}', {join_conditions}cascade='save-update, merge')"
         self.relationships.append(
             ColumnConstructor(rel_name, rel_type, rel_constructor)
         )
